@@ -601,6 +601,17 @@ func (env *SpecEnv) evalBin(x *SExpr) (Val, error) {
 		if err != nil {
 			return Val{}, err
 		}
+		// short circuit on a literally false left operand: the right one may mention a type of a
+		// package that is not part of the program under analysis (typeis of it is false)
+		if a == "false" && op == "&&" {
+			return Val{T: tBool, S: "false"}, nil
+		}
+		if a == "false" && op == "==>" {
+			return Val{T: tBool, S: "true"}, nil
+		}
+		if a == "true" && op == "||" {
+			return Val{T: tBool, S: "true"}, nil
+		}
 		b, err := env.evalBool(x.Args[1])
 		if err != nil {
 			return Val{}, err
@@ -959,6 +970,10 @@ func (env *SpecEnv) evalCall(x *SExpr) (Val, error) {
 			}
 			T, err := env.resolveType(args[1].String())
 			if err != nil {
+				if strings.HasPrefix(err.Error(), "unknown package in type") {
+					// the type's package is not part of the program under analysis: no value has that type
+					return Val{T: tBool, S: "false"}, nil
+				}
 				return Val{}, err
 			}
 			if a.Dyn != nil {
